@@ -329,7 +329,8 @@ def run(cfg, V):
         w.add_bc(i, ("neumann", nodes[1:], [0.5 + k for k in range(len(un))], un))
         warm(w, i)
     sym = facade.symbolic if V.symbolic else contextlib.nullcontext
-    with sym():
+    solver = stubs.ideal_linear_solver if V.symbolic else contextlib.nullcontext
+    with sym(), solver():
         for k, name in enumerate(cfg["ops"]):
             op_apply(w, name, V, f"_{k}")
             if cfg.get("warm_between", True) and k + 1 < len(cfg["ops"]):
@@ -348,7 +349,6 @@ def job_seq(cfg):
     res = JobResult(cfg)
     c = new_context()
     facade.install()
-    stubs.ideal_linear_solver()
     key = f"{cfg['sim']} {cfg['elem']}{' shared model+mesh' if cfg.get('shared') else ''}: " + " -> ".join(cfg["ops"])
     res.functions |= {"_Simu.Get_K_C_M_F", "_Simu.Need_Update", "_Simu._Update", "_Simu.mesh (setter)", "_Simu.Assembly", "_Simu.__Get_csr_map", "Utilities._cache.cache_computed_values",
                       "Utilities._cache.clear_cached_computed_values", "Utilities._params._Parameter.__set__", "Utilities._observers.Observable._Notify", "_IModel.Need_Update",
